@@ -4,6 +4,7 @@ package main
 
 import (
 	"fmt"
+	"go/types"
 	"strings"
 
 	"golang.org/x/tools/go/ssa"
@@ -38,7 +39,31 @@ func runLemmas(L *Loaded, U *Universe, specs *SpecSet, prop string, tmo int, see
 		c.entry = &State{pc: "true", heaps: map[string]Term{}, flags: map[int]Term{}, nextRef: "1"}
 		c.names = map[string][]ssa.Value{}
 		env := &evalEnv{vars: nil, st: c.entry, old: c.entry, pkg: sp.Pkg}
-		t, err := c.evalBool(lm.expr, env)
+		// skolemise the leading universal quantifiers: the bound variables become
+		// arbitrary WELL-TYPED values, and callee contracts are instantiated on ground terms
+		body := lm.expr
+		env.bound = map[string]*Val{}
+		bad := false
+		for {
+			q, ok := body.(*eQuant)
+			if !ok || !q.forall {
+				break
+			}
+			for _, qv := range q.vars {
+				var T types.Type
+				if e := c.try(func() { T = c.resolveType(qv.typ, env.pkg) }); e != nil {
+					errs = append(errs, fmt.Sprintf("lemma %s: %v", lm.name, e))
+					bad = true
+					break
+				}
+				env.bound[qv.name] = c.freshOf(c.entry, T, "sk."+qv.name)
+			}
+			body = q.body
+		}
+		if bad {
+			continue
+		}
+		t, err := c.evalBool(body, env)
 		if err != nil {
 			errs = append(errs, fmt.Sprintf("lemma %s: %v", lm.name, err))
 			continue
